@@ -242,7 +242,7 @@ pub fn run(args: &Args, rep: &Arc<Report>) {
         rep.set_rule("replay: every k for one recorded target");
         return;
     }
-    let ts = targets(args.tier == "thorough");
+    let ts = targets(true);
     let n = ts.len();
     par_for(
         rep,
@@ -257,5 +257,5 @@ pub fn run(args: &Args, rep: &Arc<Report>) {
         },
     );
     rep.extra("targets", json!(n));
-    rep.set_rule("targets (thorough: plus every single-coordinate deviation of the universe base points with block size <= 64 and <= 3 channels): 5 streams (1/2/8 channels, constant+verbatim+fixed+LPC subframes, 2-3 frames) as whole streams (plain, with precomputed frames, with an extra metadata block), STREAMINFO, a metadata block, and every frame (plain/precomputed), frame header, subframe and residual of them; for each target and each of four sink flavours (required methods only / all methods / failing only in write_bytes_aligned / failing once and accepting again afterwards) the sink fails on operation k for EVERY k in 0..N (N = operations of a full write, measured); oracle: write returns Err(OutputError::Sink), no panic, the bits accepted before the failure are a prefix of the reference bit string; non-trivial = a target whose sweep ran");
+    rep.set_rule("targets (plus every single-coordinate deviation of the universe base points with block size <= 64 and <= 3 channels): 5 streams (1/2/8 channels, constant+verbatim+fixed+LPC subframes, 2-3 frames) as whole streams (plain, with precomputed frames, with an extra metadata block), STREAMINFO, a metadata block, and every frame (plain/precomputed), frame header, subframe and residual of them; for each target and each of four sink flavours (required methods only / all methods / failing only in write_bytes_aligned / failing once and accepting again afterwards) the sink fails on operation k for EVERY k in 0..N (N = operations of a full write, measured); oracle: write returns Err(OutputError::Sink), no panic, the bits accepted before the failure are a prefix of the reference bit string; non-trivial = a target whose sweep ran");
 }
